@@ -265,6 +265,28 @@ def rule_reentrant_flag(db: ProgramDB) -> List[Instance]:
                             line=bad[0].lineno if bad else m.lineno))
     if n_gen < 8:
         raise AnalysisError(f"only {n_gen} evaluation generators with a yield_when_false parameter found")
+    # … and for the helpers an evaluation generator hands its work to: a generator that has NO such parameter has no request of its
+    # own, so the copy on the object is the only thing it could read - and that is the request of whichever evaluation wrote last
+    # (a @predicate condition object placed in two disjunctions: or_(c, d) asks c for false rows, or_(e, c) does not)
+    n_h = 0
+    for c in sorted([se] + se.all_subclasses(), key=lambda k: k.qualname):
+        for m in c.methods.values():
+            if m.cls is not c or "yield_when_false" in m.params:
+                continue
+            reads = [x for x in own_nodes(m.node) if isinstance(x, ast.Attribute) and x.attr == "_yield_when_false_"
+                     and isinstance(x.ctx, ast.Load) and isinstance(x.value, ast.Name) and x.value.id == "self"]
+            if not reads and not m.is_generator:
+                continue
+            n_h += 1
+            if reads:
+                out.append(inst("REENTRANT-FLAG", VIOLATION, m, f"{m.short}[false-row request]",
+                                f"`{m.short}` has no request of its own (no yield_when_false parameter) and reads `self._yield_when_false_` (line {reads[0].lineno}): "
+                                f"that is the request of whichever evaluation of this object wrote last. The same predicate / variable object in two positions "
+                                f"(c = greater(p.x, 5); and_(or_(c, d), or_(e, c))) is evaluated for the second position while the first is suspended, and the rows "
+                                f"of the first are filtered by the second's request - swapping the operands of the and_ changes the result", line=reads[0].lineno))
+    if n_h:
+        out.append(inst("REENTRANT-FLAG", HOLDS, se, "helpers[no helper generator reads the stored request]",
+                        f"{n_h} generators without a request parameter looked at") ) if not any(i.verdict == VIOLATION and "has no request of its own" in i.reason for i in out) else None
     return out
 
 
